@@ -182,7 +182,7 @@ theorem inv_subst_free (rc : Rc α) (led : Ledger α) (id : Nat) (h : Inv ⟨rc,
     rw [f2]
     omega
 
-/-- where the two configurations of `make_node` coincide: `hi`/`lo` are only left behind when the
+/-- where the wrapper before the fix and the current one coincide: `hi`/`lo` are only left behind when the
 closure that takes them over is not reached -/
 def makeNodeAgree (var hi lo : H α) : Bool :=
   (hi.isValid || !lo.isValid) && (var.isValid || !hi.isValid)
@@ -193,7 +193,7 @@ theorem makeNodeRc_agree (mk : α → α → α → Option α) (rc : Rc α) (var
   cases var <;> cases hi <;> cases lo <;>
     simp_all [makeNodeAgree, makeNodeRc, Cfg.beforeFix, Cfg.current, H.get, H.isValid, Rc.ret]
 
-/-- the repaired `make_node` keeps the invariant -/
+/-- `make_node` (current wrapper) keeps the invariant -/
 theorem inv_make_node (mk : α → α → α → Option α) (s : State α) (var hi lo : H α)
     (ho : s.led.owns hi = true) (hl : (s.led.release hi).owns lo = true) (h : Inv s) :
     Inv ⟨(makeNodeRc Cfg.current mk s.rc var hi lo).1,
